@@ -53,6 +53,17 @@ fn check_readback(bytes: &[u8], kvs: &[Kv], full: bool) -> Result<(), String> {
     if m.len() != n || m.is_empty() != (n == 0) {
         return Err("Map::len/is_empty".into());
     }
+    // readers that were pointed at these bytes through map_data (from an empty / another FST)
+    let m0: Map<Vec<u8>> = Map::default();
+    let m0 = m0.map_data(|_| bytes).map_err(|e| format!("Map::default().map_data failed: {:?}", e))?;
+    if m0.stream().into_byte_vec() != kvs || m0.len() != n || m0.is_empty() != (n == 0) {
+        return Err(format!("a Map pointed at the bytes through map_data streams {} (len {})", kvs_str(&m0.stream().into_byte_vec()), m0.len()));
+    }
+    let other = Set::new(other_fst_bytes()).map_err(|e| format!("{:?}", e))?;
+    let s1 = other.map_data(|_| bytes).map_err(|e| format!("Set::map_data failed: {:?}", e))?;
+    if s1.stream().into_bytes() != keys || s1.len() != n {
+        return Err(format!("a Set pointed at the bytes through map_data has len {} and streams {:?}", s1.len(), s1.stream().into_bytes().iter().map(|k| key_str(k)).collect::<Vec<_>>()));
+    }
     let s = Set::new(bytes).map_err(|e| format!("Set::new failed: {:?}", e))?;
     if s.stream().into_bytes() != keys || front::collect_keys((&s).into_stream()) != keys {
         return Err("Set::stream differs".into());
